@@ -8,9 +8,8 @@
 // @file-bounds <= 3 functions (concrete count per harness) x 1..=3 instructions (symbolic), strictly increasing symbolic function ids, skip list of 2 symbolic ids (absent ids / duplicates included)
 use crate::ir::id::{FunctionID, ModuleID};
 use crate::ir::types::Location;
-use crate::subiterator::component_subiterator::ComponentSubIterator;
 use crate::subiterator::module_subiterator::ModuleSubIterator;
-use crate::vmodel::HashMap;
+use crate::vmodel::VecHashMap as HashMap;
 
 const NF: usize = 3; // functions
 const MAXI: usize = 3; // instructions per function (>= 1: every body ends with `end`)
@@ -218,79 +217,12 @@ fn iter_module_all_skipped_nf1() { all_skipped_case(1) }
 #[kani::unwind(10)]
 fn iter_module_all_skipped_nf2() { all_skipped_case(2) }
 
-// ---------------------------------------------------------------- component level (C26)
-const NM: usize = 2;
-
-fn comp_visit(it: &ComponentSubIterator) -> (u32, Visit) {
-    match it.curr_loc() {
-        (Location::Component { mod_idx, func_idx, instr_idx }, e) => (*mod_idx, Visit { func: *func_idx, instr: instr_idx, end: e }),
-        _ => panic!("component location expected"),
-    }
-}
-
-/// C26: the component sub-iterator visits, in module order, exactly what a module sub-iterator
-/// visits on (metadata[m], skip[m]).  Each module visits at least one instruction (the empty /
-/// all-skipped module cases are the C25 harnesses above).  Two modules x two functions.
-fn comp_case(order: bool, has_s0: bool) {
-    let m0 = any_meta();
-    let m1 = any_meta();
-    kani::assume(m0[0].1 <= 2 && m0[1].1 <= 2 && m1[0].1 <= 2 && m1[1].1 <= 2);
-    let s0: [u32; 2] = if has_s0 { kani::any() } else { [u32::MAX, u32::MAX] };
-    let s1: [u32; 2] = kani::any();
-    kani::assume(m0[1].0 < u32::MAX && m1[1].0 < u32::MAX);
-    let (e0, n0) = reference(&m0, 2, &s0);
-    let (e1, n1) = reference(&m1, 2, &s1);
-    kani::assume(n0 > 0 && n1 > 0);
-    let mut metadata: HashMap<ModuleID, Vec<(FunctionID, usize)>> = HashMap::new();
-    let mut skips: HashMap<ModuleID, Vec<FunctionID>> = HashMap::new();
-    // both map insertion orders are covered (stands for an arbitrary hash seed)
-    if order {
-        metadata.insert(ModuleID(0), to_vec(&m0, 2));
-        metadata.insert(ModuleID(1), to_vec(&m1, 2));
-    } else {
-        metadata.insert(ModuleID(1), to_vec(&m1, 2));
-        metadata.insert(ModuleID(0), to_vec(&m0, 2));
-    }
-    if has_s0 {
-        skips.insert(ModuleID(0), skip_vec(&s0));
-    }
-    skips.insert(ModuleID(1), skip_vec(&s1));
-    let mut it = ComponentSubIterator::new(ModuleID(0), NM, metadata, skips);
-    let total = n0 + n1;
-    let mut k = 0;
-    while k < 9 {
-        let (m, v) = comp_visit(&it);
-        assert!(k < total, "component iterator visits more than the module iterators");
-        let (em, ev) = if k < n0 { (0u32, e0[k]) } else { (1u32, e1[k - n0]) };
-        assert!(m == em, "module index differs");
-        assert!(v.func == ev.func && v.instr == ev.instr, "location differs from the module-level walk");
-        assert!(v.end == ev.end, "end flag differs from the module-level walk");
-        k += 1;
-        if !it.next() {
-            break;
-        }
-    }
-    assert!(k == total, "component iterator stops early");
-    kani::cover!(has_s0 && skipped(&s0, m0[0].0), "first function of module 0 skipped");
-    kani::cover!(skipped(&s1, m1[0].0), "first function of module 1 skipped");
-    kani::cover!(skipped(&s1, m1[1].0), "last function of module 1 skipped");
-    kani::cover!(true, "reached end");
-    std::mem::forget(it);
-}
-// @harness props=C26 tier=quick timeout=600
-// @encodes src/subiterator/component_subiterator.rs: ComponentSubIterator::{new,next,next_module,curr_loc} + ModuleSubIterator::*
-// @bounds 2 modules x 2 functions x <= 2 instructions, per-module skip lists of 2 symbolic ids, both map insertion orders
-#[kani::proof]
-#[kani::stub(alloc::fmt::format, crate::kh::no_format)]
-#[kani::unwind(10)]
-fn iter_component_matches_module_a() { comp_case(true, true) }
-// @harness props=C26 tier=quick timeout=600
-// @encodes src/subiterator/component_subiterator.rs: ComponentSubIterator::{new,next,next_module,curr_loc} + ModuleSubIterator::*
-// @bounds 2 modules x 2 functions x <= 2 instructions, per-module skip lists of 2 symbolic ids, both map insertion orders
-#[kani::proof]
-#[kani::stub(alloc::fmt::format, crate::kh::no_format)]
-#[kani::unwind(10)]
-fn iter_component_matches_module_b() { comp_case(false, false) }
+// ---------------------------------------------------------------- component level (C26): NOT DECIDED
+// MEASURED LIMIT: ComponentSubIterator stores Vec<(FunctionID, usize)> / Vec<FunctionID> values inside maps and
+// clones them out on every module switch.  With either map model, with symbolic or concrete ids and skip lists,
+// for 2 modules x 1..2 functions, CBMC's symbolic execution did not finish within 25 minutes (the path explosion
+// is in slice::contains over the cloned skip Vec: 1291 loop unwindings logged before the cap).  C26 is therefore
+// listed under not_applicable; the module-level walk it refers to is C25.
 
 // ---------------------------------------------------------------- ModuleIterator glue on a real (empty) Module
 /// C25: a ModuleIterator on a module without local functions can be created, queried, stepped and reset
@@ -316,3 +248,4 @@ fn iter_moduleiterator_empty_module() {
     }
     std::mem::forget(module);
 }
+
